@@ -127,65 +127,69 @@ def intOfNum (num : String → Option Rat) (s : String) : Option Int :=
   | some r => if r.den = 1 then some r.num else none
   | none => none
 
-inductive CsvOut
-  | graph (g : Graph Ident)
-  | err (e : PyErr)
+/-- the third field of a row as `from_edge_list` receives it from `csv.reader` -/
+def thirdField (num : String → Option Rat) (r : List String) : WField :=
+  if 3 ≤ r.length then (match num (strip (r.getD 2 "")) with | some w => .num w | none => .text) else .absent
+
+/-- the rows of the file (after the header) as the list of tuples handed to `from_edge_list`:
+    `len(edge_list[0]) == 3` decides whether weights are read -/
+def tuplesOf (num : String → Option Rat) (body : List (List String)) : List EdgeTuple :=
+  let withW : Bool := match body with
+    | r0 :: _ => decide (r0.length = 3)
+    | [] => false
+  body.map fun r => (.str (r.getD 0 ""), .str (r.getD 1 ""), if withW then thirdField num r else .absent)
+
+/-- the numeric fast path of `from_csv`: `none` = a field is not a number (`TypeError`, caught) -/
+def fastPath (symW : Flags → Bool) (num : String → Option Rat) (rows : List (List String)) (f : Flags) :
+    Option (Except PyErr (Graph Ident)) :=
+  match rows with
+  | [] => some (.error .indexError)     -- empty array
+  | r0 :: _ =>
+    if rows.any (fun r => r.length ≠ r0.length) then some (.error .valueError)
+    else if !rows.all (fun r => r.all fun s => (num s).isSome) then none    -- some nan: TypeError, caught
+    else if r0.length < 2 then some (.error .indexError)
+    else
+      let edges := rows.map fun r => (truncRat ((num (r.getD 0 "")).getD 0), truncRat ((num (r.getD 1 "")).getD 0))
+      let weights := if r0.length = 3 then some (rows.map fun r => (num (r.getD 2 "")).getD 0) else none
+      some (liftNames .int (fromEdgeArrayWith symW ltInt (some id) edges weights f))
+
+/-- the delimiter handed over: `delimiter`, else its alias `sep` -/
+def csvGiven (a : CsvArgs) : Option Char :=
+  match a.delimiter with
+  | some d => some d
+  | none => a.sep
+
+/-- `scan_header(file_path, delimiters=delimiter, comments=comments)` as `from_csv` calls it -/
+def csvScan (lines : List String) (a : CsvArgs) : Scan :=
+  scanHeader lines (match csvGiven a with
+    | some d => [d]
+    | none => ['\t', ',', ';', ' ']) a.comments
+
+/-- the delimiter `from_csv` splits the rows with: the given one, else the guess -/
+def csvDelimiter (lines : List String) (a : CsvArgs) : Char := (csvGiven a).getD (csvScan lines a).delimiter
 
 /-- `from_csv(file_path, delimiter, sep, comments, data_structure, **flags)` on a file given by its lines.
     `num` is the number syntax (`float(s)`): `none` = not a number. -/
 def fromCsvWith (symW : Flags → Bool) (num : String → Option Rat) (lines : List String) (a : CsvArgs) (f : Flags) :
-    Except PyErr (Graph Ident) := do
-  let delimiter := match a.delimiter with
-    | some d => some d
-    | none => a.sep
-  let delims := match delimiter with
-    | some d => [d]
-    | none => ['\t', ',', ';', ' ']
-  let sc := scanHeader lines delims a.comments
-  let d := delimiter.getD sc.delimiter
+    Except PyErr (Graph Ident) :=
+  let sc := csvScan lines a
+  let d := csvDelimiter lines a
   let layout := a.layout.getD sc.layout
-  -- numeric fast path
-  let fast : Option (Except PyErr (Graph Ident)) :=
-    if layout = .edgeList then
-      let rows := genRows d sc.comment a.comments lines
-      match rows with
-      | [] => some (.error .indexError)     -- empty array
-      | r0 :: _ =>
-        if rows.any (fun r => r.length ≠ r0.length) then some (.error .valueError)
-        else
-          match rows.mapM (fun r => r.mapM num) with
-          | none => none                    -- some nan: TypeError, caught
-          | some vals =>
-            if r0.length < 2 then some (.error .indexError)
-            else
-              let edges := vals.map fun r => (truncRat (r.getD 0 0), truncRat (r.getD 1 0))
-              let weights := if r0.length = 3 then some (vals.map fun r => r.getD 2 0) else none
-              some (do
-                let g ← fromEdgeArrayWith symW ltInt (some id) edges weights f
-                pure (g.mapNames .int))
-    else none
-  match fast with
-  | some r => r
-  | none =>
-    let body := (lines.drop sc.headerLength).map (splitAt d)
-    -- csv.reader gives the empty row for an empty line
-    let body := body.map fun r => if r = [""] then [] else r
-    match layout with
-    | .edgeList =>
-      if body.any (fun r => r.length < 2) then throw .indexError
-      let edges : List EdgeTuple := body.map fun r =>
-        (.str (r.getD 0 ""), .str (r.getD 1 ""),
-         if 3 ≤ r.length then (match num (strip (r.getD 2 "")) with | some w => .num w | none => .text) else .absent)
-      -- `len(edge_list[0]) == 3` decides whether weights are read: rows of another length have no third field
-      let edges := match body with
-        | r0 :: _ => if r0.length = 3 then edges else edges.map fun e => (e.1, e.2.1, .absent)
-        | [] => edges
-      fromEdgeListWith symW (intOfNum num) edges f
-    | .adjacencyList =>
-      fromEdgeListWith symW (intOfNum num)
-        (adjacencyEdges (((List.range body.length).zip body).map fun r => (.int r.1, r.2.map .str))) f
-    | .adjacencyDict =>
-      if body.any (fun r => r.isEmpty) then throw .indexError
+  -- csv.reader gives the empty row for an empty line
+  let body := ((lines.drop sc.headerLength).map (splitAt d)).map fun r => if r = [""] then [] else r
+  match layout with
+  | .edgeList =>
+    match fastPath symW num (genRows d sc.comment a.comments lines) f with
+    | some r => r
+    | none =>
+      if body.any (fun r => r.length < 2) then .error .indexError
+      else fromEdgeListWith symW (intOfNum num) (tuplesOf num body) f
+  | .adjacencyList =>
+    fromEdgeListWith symW (intOfNum num)
+      (adjacencyEdges (((List.range body.length).zip body).map fun r => (.int r.1, r.2.map .str))) f
+  | .adjacencyDict =>
+    if body.any (fun r => r.isEmpty) then .error .indexError
+    else
       -- a dict: a repeated key keeps its first position and its last value
       let keys := body.map (·.headD "")
       let dict := (keys.eraseDups).map fun k =>
